@@ -113,6 +113,14 @@ func runC10(c compCase, rec *stat.Rec) *stat.Failure {
 	if !bytes.Equal(res.Out, src) {
 		return stat.Failf("C10/"+kind+"/strict-decode-differs", "%s depth %d len(src)=%d n=%d: first difference at %d", c.Comp, c.Depth, len(src), r.N, firstDiff(res.Out, src))
 	}
+	// "independent decoders decode it": the reference library itself (when present on this machine), into a destination of
+	// exactly len(src) bytes
+	if n, out, ok := refLibDecode(r.Out, len(src), nil); ok {
+		rec.Class("reference-library/decoded-the-block")
+		if n != len(src) || !bytes.Equal(out, src) {
+			return stat.Failf("C10/"+kind+"/reference-library-does-not-decode-the-block", "%s depth %d len(src)=%d n=%d: LZ4_decompress_safe into exactly len(src) bytes returns %d", c.Comp, c.Depth, len(src), r.N, n)
+		}
+	}
 	matches := classifyBlock(rec, "", res.Seqs)
 	rec.Class(srcLenClass(len(src)), depthClass(c.Comp, c.Depth))
 	if c.DstLen < lz4.CompressBlockBound(len(src)) {
